@@ -2466,6 +2466,16 @@ class FileDatastore(GenericBaseDatastore[StoredFileInfo]):
                 _ = self.mexists(missing, artifact_existence)
                 uris = [uri for uri, exists in artifact_existence.items() if exists]
 
+                # A file found at the expected location need not belong to
+                # the dataset being removed (a file ingested for several
+                # datasets is named after one of them): never delete an
+                # artifact that datastore records still refer to.
+                in_store = {uri: uri.relative_to(self.root) for uri in uris}
+                still_used = self._refs_associated_with_artifacts(
+                    [path for path in in_store.values() if path is not None]
+                )
+                uris = [uri for uri in uris if in_store[uri] is None or not still_used.get(in_store[uri])]
+
                 # FUTURE UPGRADE: Implement a parallelized bulk remove.
                 log.debug("Removing %d artifacts from datastore that are unknown to datastore", len(uris))
                 for uri in uris:
